@@ -439,7 +439,15 @@ def check_random_walk_per_component(c, net, A):
         def fn(B):
             sub = make_net(B, False)
             return getattr(sub, method)(**kw)
-        return S.per_component(A, fn)
+        res = S.per_component(A, fn)
+        if kw.get("add_local_ends"):
+            # with local ends every node - also an isolated one - receives the contribution of its own weight
+            # ((2W - k*) k* = w**2 on a one-node component; repaired defect, required by node-splitting invariance):
+            # the value on the whole graph equals the value of the one-node network alone
+            for comp in S.components(A):
+                if len(comp) == 1:
+                    res[comp[0]] = float(fn(S.induced(A, comp))[0])
+        return res
     for name, method, kw in (
             ("nsi_newman_betweenness/per-component-consistency", "nsi_newman_betweenness", {}),
             ("nsi_newman_betweenness/per-component-consistency-local-ends", "nsi_newman_betweenness",
@@ -843,7 +851,10 @@ def main():
                "6..40 nodes (quick: 6..30) over p in 0.02..0.98, undirected and directed; link-weighted variants with ALL "
                "weight assignments from {1,2,3} on "
              + ("undirected n<=4 / directed n<=3" if args.tier == "thorough" else "undirected n<=3 / directed n<=2")
-             + " plus seeded samples and real-valued weights on larger graphs. Unit node weights for all n.s.i. "
+             + " plus seeded samples and real-valued weights on larger graphs. The deprecated key "
+               "link_attribute='topological' (documented as: use None) of path_lengths, average_path_length, "
+               "global_efficiency, local_vulnerability, closeness, laplacian and pagerank is judged by the "
+               "unweighted definitions (checks .../deprecated-topological-key). Unit node weights for all n.s.i. "
                "relations. Tolerances: exact-valued measures rtol 1e-9/atol 1e-12; float64 linear algebra (Newman, "
                "Arenas, pagerank, msf) rtol 1e-7/atol 1e-9; ARPACK eigenvectors (tol=1e-8 in the code, shift-invert at N^2) rtol 1e-5/atol "
                "max(1e-6, 1e-7*N^2/spectral gap). No float32 kernels are involved.")
